@@ -312,6 +312,15 @@ def run(ctx):
                      'of every option value: a declared signature is parsed by the parser built for it (C09 R09b)', 1)
     _c09._module_state(ctx, repo, 'R02r', lambda name: name.startswith('pylatexenc.latexnodes.parsers'))
 
+    # ---- R02s (C10 R10g), R02t (C11 R11b)
+    ctx.rule('R02s', 'the state in which the contents of a delimited argument are parsed is derived from the state given for '
+                     'this very parse (no remembered state of another document) (C10 R10g)', 2)
+    ctx.rule('R02t', 'peeking a token does not change the reader and remembers nothing (C11 R11b)', 4)
+    from . import c10 as _c10, c11 as _c11
+    from .. import core as _core
+    _core.run_proxied(ctx, _c10, 'R02s', ('R10g',))
+    _core.run_proxied(ctx, _c11, 'R02t', ('R11b',))
+
     return 'other', (
         'Decides the dispatch skeleton of the parser: every token kind the reader emits has a '
         'handler, every standard argument letter builds the parser of its kind and optionality, one '
@@ -376,6 +385,26 @@ def _regex_word_boundary_verdict(pattern):
     return True, 'begin|end each followed by (?![A-Za-z])'
 
 
+_NEG_OP = {ast.In: ast.NotIn, ast.NotIn: ast.In, ast.Lt: ast.GtE, ast.GtE: ast.Lt, ast.Gt: ast.LtE, ast.LtE: ast.Gt,
+           ast.Eq: ast.NotEq, ast.NotEq: ast.Eq, ast.Is: ast.IsNot, ast.IsNot: ast.Is}
+
+
+def _alternatives(a, pol):
+    """the disjuncts that a decided test guarantees one of: `A or B` taken true -> [A, B];
+    `A and B` taken false -> [not A, not B] (comparisons negated by operator); a plain test -> itself"""
+    def neg(e):
+        if isinstance(e, ast.Compare) and len(e.ops) == 1 and type(e.ops[0]) in _NEG_OP:
+            return ast.Compare(left=e.left, ops=[_NEG_OP[type(e.ops[0])]()], comparators=e.comparators)
+        if isinstance(e, ast.UnaryOp) and isinstance(e.op, ast.Not):
+            return e.operand
+        return ast.UnaryOp(op=ast.Not(), operand=e)
+    if pol:
+        return list(a.values) if isinstance(a, ast.BoolOp) and isinstance(a.op, ast.Or) else [a]
+    if isinstance(a, ast.BoolOp) and isinstance(a.op, ast.And):
+        return [neg(v) for v in a.values]
+    return [neg(a)]
+
+
 def _begin_end_word_boundary(ctx, repo):
     pass
     tm = repo.mod(TR)
@@ -405,10 +434,7 @@ def _begin_end_word_boundary(ctx, repo):
                            for a, ap in atoms)
             boundary = False
             for a, ap in atoms:
-                if not ap:
-                    continue
-                alts = a.values if isinstance(a, ast.BoolOp) and isinstance(a.op, ast.Or) else [a]
-                for x in alts:
+                for x in _alternatives(a, ap):
                     if isinstance(x, ast.Compare) and len(x.ops) == 1 and isinstance(x.ops[0], ast.NotIn) \
                             and unparse(x.comparators[0]).endswith('.macro_alpha_chars') \
                             and isinstance(x.left, ast.Subscript):
@@ -458,10 +484,7 @@ def _begin_end_word_boundary(ctx, repo):
                     words_ok = False
             boundary = False
             for a, ap in atoms:
-                if not ap:
-                    continue
-                alts = a.values if isinstance(a, ast.BoolOp) and isinstance(a.op, ast.Or) else [a]
-                for x in alts:
+                for x in _alternatives(a, ap):
                     if isinstance(x, ast.Compare) and len(x.ops) == 1 and isinstance(x.ops[0], ast.NotIn) \
                             and unparse(x.comparators[0]).endswith('.macro_alpha_chars') \
                             and isinstance(x.left, ast.Subscript):
